@@ -3156,19 +3156,21 @@ impl Fsm {
             match datamodel.evaluate_content(&inv.content) {
                 None => Err("No content to execute".to_string()),
                 Some(content) => {
-                    let mut global = get_global!(datamodel);
-                    let session_id = global.session_id;
-
-                    // The child gets its own map of actions: it registers its own "In" function there.
-                    let actions = ActionWrapper {
-                        actions: Arc::new(Mutex::new(global.actions.get_map_copy())),
+                    // The lock of the global data is released before the child is started: starting
+                    // needs the io-processors, and a timer of this session may hold a processor
+                    // while it waits for the global data.
+                    let (mut executor, session_id, actions) = {
+                        let global = get_global!(datamodel);
+                        // The child gets its own map of actions: it registers its own "In" function there.
+                        let actions = ActionWrapper {
+                            actions: Arc::new(Mutex::new(global.actions.get_map_copy())),
+                        };
+                        (global.executor.clone().unwrap(), global.session_id, actions)
                     };
-                    global
-                        .executor
-                        .as_mut()
-                        .unwrap()
+                    let content_text = content.lock().unwrap().to_string();
+                    executor
                         .execute_with_data_from_xml(
-                            content.lock().unwrap().to_string().as_str(),
+                            content_text.as_str(),
                             actions,
                             &name_values,
                             Some(session_id),
@@ -3180,13 +3182,15 @@ impl Fsm {
                 }
             }
         } else {
-            let mut global = get_global!(datamodel);
-            let session_id = global.session_id;
-            // The child gets its own map of actions: it registers its own "In" function there.
-            let actions = ActionWrapper {
-                actions: Arc::new(Mutex::new(global.actions.get_map_copy())),
+            let (mut executor, session_id, actions) = {
+                let global = get_global!(datamodel);
+                // The child gets its own map of actions: it registers its own "In" function there.
+                let actions = ActionWrapper {
+                    actions: Arc::new(Mutex::new(global.actions.get_map_copy())),
+                };
+                (global.executor.clone().unwrap(), global.session_id, actions)
             };
-            global.executor.as_mut().unwrap().execute_with_data(
+            executor.execute_with_data(
                 src.to_string().as_str(),
                 actions,
                 &name_values,
